@@ -56,6 +56,17 @@ impl<'a> Iterator for TokenIterator<'a> {
     }
 }
 
+/// The symbols a chemical formula is made of, if it is one.
+pub fn symbols(formula: &str) -> Option<Vec<String>> {
+    TokenIterator::new(formula)
+        .filter_map(|token| match token {
+            Token::Symbol(symbol) => Some(Some(symbol)),
+            Token::Count(_) => None,
+            Token::Error => Some(None),
+        })
+        .collect()
+}
+
 /**
  * Compute the molar mass of a compound given its chemical formula.
  */
